@@ -1,19 +1,31 @@
 """The translator: regenerates lean/Pyrealb/Gen/*.lean from /repo's working tree on every run.
-Each generator module exposes generate() -> {relative path under lean/: content}."""
+Every module harness/translate/<name>.py exposing generate() -> {path relative to lean/: content} is run
+(auto-discovered); a file is rewritten only when its content changes so that Lake's cache stays valid.
+A generator that can no longer find what it extracts raises TranslateError: a broken tie (DESIGN §2.2)."""
 import importlib
 import os
+import pkgutil
 
 from harness import core
 
-GENERATORS = []  # module names under harness.translate, filled below
+
+class TranslateError(Exception):
+    pass
+
+
+def generators():
+    here = os.path.dirname(os.path.abspath(__file__))
+    return sorted(m.name for m in pkgutil.iter_modules([here]) if not m.name.startswith("_"))
 
 
 def run_all(only=None):
     changed = []
-    for name in GENERATORS:
+    for name in generators():
         if only and name not in only:
             continue
         mod = importlib.import_module("harness.translate." + name)
+        if not hasattr(mod, "generate"):
+            continue
         for rel, content in mod.generate().items():
             if core.write_if_changed(os.path.join(core.LEAN, rel), content):
                 changed.append(rel)
